@@ -46,7 +46,7 @@ FULL = {
     "serial": [1, 9999, 99999, 100000, 1234567],
     "name": ["C", "CA", "HB2", "HH11", "O5'", "H5''", "1HB"],
     "res_name": ["U", "DA", "ALA", "NALA"],
-    "chain": ["", "A"],
+    "chain": ["", "A", "1", "a"],
     "res_seq": [-999, -1, 0, 1, 9999, 10000, 12345, -1000],
     "icode": ["", "A"],
     "x": [0.0, -0.0004, 1.2345, -999.999, 9999.999, -1000.123, 10000.5,
@@ -59,7 +59,7 @@ REDUCED = {
     "serial": [1, 99999, 100000],
     "name": ["C", "HB2", "HH11"],
     "res_name": ["U", "ALA", "NALA"],
-    "chain": ["", "A"],
+    "chain": ["", "A", "1"],
     "res_seq": [-999, 1, 10000],
     "icode": ["", "A"],
     "x": [1.2345, -999.999, 10000.5],
